@@ -183,14 +183,27 @@ def run(ctx):
         ctx.check(exit_ok, "R06.2", "%s|enough-space-accepts" % en, "when enough space results the put is accepted", f.where(gb))
         # sample exhausted: accepted iff a query made *after* the empty pop says the incoming weight fits now
         vals = set()
+        unforced = None
+        n_rej = 0
         for sp in ipaths(F, f, stop=lambda n: n in M.qnames or n in dec_fns or n in pop_fns or n in M.inc_defs, depth=2):
             pe = [e for e in sp.events if e.callee in pop_fns and sp.variant_of(e.res) == ("None",)]
+            if (sp.ret_variant() or ("?",))[0] == "Rejected":
+                n_rej += 1
+                colder = [a for a in sp.atoms if a[0] == "bool" and mentions(a[1], lambda s_: s_[0] == "field" and s_[2] == "estimated_frequency")]
+                if not pe and not colder and unforced is None:
+                    unforced = sp.show()[:300]
             if not pe:
                 continue
             q = [a for a in sp.atoms if a[0] == "bool" and M.is_query_field(a[1], w, "1") and a[4] > pe[-1].seq]
             vals.add((q[-1][2] if q else None, (sp.ret_variant() or ("?",))[0]))
         ctx.check(vals <= {(True, "Accepted"), (False, "Rejected")} and len(vals) == 2, "R06.2", "%s|empty-sample" % en,
                   "when no victim is left the put is accepted iff the space now suffices, else rejected", f.where(), str(sorted(vals, key=repr)))
+        # the converse of colder-incoming-rejected: the loop gives up *only* for those two reasons.  Any other refusal (a
+        # shortcut judging from the first sample, a cap on the number of victims) rejects a put for which evicting one key
+        # after the other would have made room
+        ctx.check(unforced is None and n_rej >= 1, "R06.2", "%s|rejects-only-when-colder-or-exhausted" % en,
+                  "every Rejected result of the eviction loop follows either the comparison with a victim's estimate or a sample that ran empty", f.where(),
+                  unforced or "%d rejecting path(s)" % n_rej)
 
     for s_ in M.sites + M.helper_sites:
         ctx.check(s_["kind"] != "unclassified" and s_.get("exact", True), "R06.7", "%s|total-written-exactly" % s_["fn"].name,
